@@ -379,6 +379,57 @@ Theorem vm_multibase_type_base58_asis_refuted :
 Proof. vm_compute. repeat split. Qed.
 Print Assumptions vm_multibase_type_base58_asis_refuted.
 
+(* ---- single value <-> array: the collapse and expansion rules, explicitly ----
+   termsOfUse / refreshService / proof: an array of one is written as the single value, a single value is read as an
+   array of one; two or more stay an array; none is no member *)
+Theorem array_of_one_collapses : forall {A} (enc : A -> json) (x : A), enc_list enc [x] = Some (enc x).
+Proof. reflexivity. Qed.
+Print Assumptions array_of_one_collapses.
+
+Theorem arrays_of_two_or_more_stay : forall {A} (enc : A -> json) (x y : A) r,
+  enc_list enc (x :: y :: r) = Some (JArr (map enc (x :: y :: r))) /\ enc_list enc ([] : list A) = None.
+Proof. intros. split; reflexivity. Qed.
+Print Assumptions arrays_of_two_or_more_stay.
+
+Theorem single_typedid_read_as_array_of_one : forall m s,
+  dec_sstruct typedID_fields m = Some s ->
+  dec_typedids (Some (JObj m)) = Some [s] /\ dec_typedids (Some (JArr [JObj m])) = Some [s].
+Proof. intros m s H. cbn [dec_typedids dec_typedid mapM]. rewrite H. split; reflexivity. Qed.
+Print Assumptions single_typedid_read_as_array_of_one.
+
+(* credentialSchema: read like the others, but ALWAYS written as an array (a single schema is expanded);
+   an empty array or null is no schema and no member is written *)
+Theorem schema_single_expands_to_array : forall m s,
+  dec_sstruct typedID_fields m = Some s ->
+  dec_schemas (Some (JObj m)) = Some [s] /\ enc_schemas [s] = Some (JArr [enc_sstruct s]) /\
+  dec_schemas (Some (JArr [])) = Some [] /\ dec_schemas (Some JNull) = Some [] /\ enc_schemas [] = None.
+Proof. intros m s H. cbn [dec_schemas dec_typedid]. rewrite H. repeat split; reflexivity. Qed.
+Print Assumptions schema_single_expands_to_array.
+
+(* evidence is kept in the form it came in: an array of one stays an array of one, a single value stays single *)
+Theorem evidence_form_kept : forall j, is_null j = false -> dec_iface (Some j) = Some (f64j j).
+Proof. intros [] H; try reflexivity. discriminate. Qed.
+Print Assumptions evidence_form_kept.
+
+(* type: one type is written as a string, otherwise an array; @context: always an array *)
+Theorem type_and_context_forms : forall s ss cs,
+  enc_types [s] = JStr s /\ enc_types [] = JArr [] /\ enc_context ss cs = JArr (map JStr ss ++ cs).
+Proof. intros. repeat split; reflexivity. Qed.
+Print Assumptions type_and_context_forms.
+
+(* credentialSubject: an id string stays a string, an array of one object is written as the object *)
+Theorem subject_forms : forall x s,
+  enc_subject (SStr x) = Some (JStr x) /\ enc_subject (SList [s]) = Some (enc_sstruct s) /\ enc_subject SNone = None /\
+  enc_subject (SList []) = Some (JArr []).
+Proof. intros. repeat split; reflexivity. Qed.
+Print Assumptions subject_forms.
+
+(* the JWT form is defined for one subject: several subjects (or none) are refused, in both forms *)
+Theorem jwt_several_subjects_refused : forall secs minimize v a b r,
+  v_subject v = SList (a :: b :: r) \/ v_subject v = SList [] \/ v_subject v = SNone -> jwt_claims secs minimize v = None.
+Proof. intros secs minimize v a b r [H|[H|H]]; unfold jwt_claims; rewrite H; reflexivity. Qed.
+Print Assumptions jwt_several_subjects_refused.
+
 (* ---- key fingerprints (multibase/base58 layer outside: sampled on btcutil) ----
    for every code of the generated multicodec table except G1G2 and every key byte string:
    PubKeyFromFingerprint (KeyFingerprint code key) = (key, code) *)
